@@ -87,20 +87,69 @@ def run_session(rnd, w, dumps, kinds, gen_cfg, nacts=14, max_gens=4):
             if g[3]:
                 g[3] = 'stale'    # what a half-read listing does after the options changed is not claimed; it may still be read
 
+    def reader_of(blob):
+        """the dump as the caller may hand it over: in memory, behind a buffered reader, or a file on disk"""
+        r = rnd.random()
+        if r < 0.6:
+            return io.BytesIO(blob)
+        if r < 0.8:
+            return io.BufferedReader(io.BytesIO(blob), buffer_size=rnd.choice([16, 64, 4096]))
+        import tempfile
+        f = tempfile.TemporaryFile()
+        f.write(blob)
+        f.seek(0)
+        return f
+
+    def do_badopen():
+        kind = rnd.choice(kinds)
+        junk = rnd.choice([b'', b'\x00', b'\x00\x02\xaa', b'\x00\x04\xaa\x55' + bytes(400), b'not a dump at all', bytes(rnd.getrandbits(8) for _ in range(300))])
+        a = {'op': 'badopen', 'kind': kind}
+        try:
+            rd = io.BytesIO(junk)
+            it = {'kev': p.kevents, 'fkev': p.formatted_kevents, 'tr': p.traces, 'cs': p.callstacks}[kind](rd)
+            a['err'] = 'accepted'           # whether junk is refused at call time or at the first next() is not pinned:
+            try:                            # either way nothing may come out of it
+                x = next(iter(it))
+                a['item'] = str(x)[:60]
+                a['op'] = 'adv'             # something came out of junk: reported as raised
+                a['g'] = 1
+            except Exception:
+                pass
+        except Exception as ex:
+            a['err'] = type(ex).__name__
+        if a['op'] == 'badopen':
+            acts.append(a)
+            script.append('request %s on %d junk bytes -> %s' % (kind, len(junk), a['err']))
+        else:
+            acts.append({'op': 'adv', 'g': 1, 'found': True, 'item': {}, 'err': 'junk yielded ' + a['item']})
+
+    def do_drop(avoid=None):
+        live = [i for i, g in enumerate(gens) if g[0] is not None and i != avoid]
+        if not live:
+            return
+        gi = rnd.choice(live)
+        gens[gi][0] = None                  # the last reference goes away: the generators are finalised now
+        gens[gi][3] = False
+        import gc
+        gc.collect(1)
+        acts.append({'op': 'drop', 'g': gi + 1})
+        script.append('drop #%d' % (gi + 1))
+
     def do_open(kind=None):
         kind = kind or rnd.choice(kinds)
         d = rnd.randrange(len(dumps))
         codes = rnd.choice(['A', 'B']) if kind == 'fkev' else '-' if kind == 'kev' else 'W'
-        rd = io.BytesIO(dumps[d].blob)
+        rd = reader_of(dumps[d].blob)
+        kw = rnd.random() < 0.3             # arguments by keyword
         try:
             if kind == 'kev':
-                it = p.kevents(rd)
+                it = p.kevents(kdebug=rd) if kw else p.kevents(rd)
             elif kind == 'fkev':
-                it = p.formatted_kevents(rd, tabobj[codes])
+                it = p.formatted_kevents(kdebug=rd, trace_codes=tabobj[codes]) if kw else p.formatted_kevents(rd, tabobj[codes])
             elif kind == 'tr':
-                it = p.traces(rd, wcodes)
+                it = p.traces(kdebug=rd, trace_codes=wcodes) if kw else p.traces(rd, wcodes)
             else:
-                it = p.callstacks(rd, wcodes)
+                it = p.callstacks(kdebug=rd, trace_codes=wcodes) if kw else p.callstacks(rd, wcodes)
         except Exception as ex:
             acts.append({'op': 'open', 'kind': kind, 'd': d + 1, 'codes': codes, 'err': type(ex).__name__ + ':' + str(ex)[:80]})
             return None
@@ -147,18 +196,37 @@ def run_session(rnd, w, dumps, kinds, gen_cfg, nacts=14, max_gens=4):
             if failed() or not do_adv(gi):
                 break
 
-    scenario = rnd.choice(['abandon', 'abandon', 'interleave', 'interleave', 'edit', 'edit', 'random', 'random'])
+    scenario = rnd.choice(['abandon', 'abandon', 'interleave', 'interleave', 'edit', 'edit', 'random', 'random', 'prepared', 'prepared'])
+    if rnd.random() < 0.2:
+        do_badopen()
     if scenario == 'abandon':
         # listings read half way and left alive (same or other dump, same or other kind), then a request read to the end
         for _ in range(rnd.randrange(1, 4)):
             gi = do_open()
             if gi is None:
                 break
-            some(gi, 0, 6)
+            some(gi, rnd.choice([0, 1, 1, 2]), 6)
+            if rnd.random() < 0.25:
+                do_badopen()
         if not failed():
             gi = do_open()
             if gi is not None:
-                drain(gi)
+                some(gi, 0, 3)
+                if rnd.random() < 0.6:
+                    do_drop(avoid=gi if rnd.random() < 0.8 else None)      # an older listing is dropped while this one is being read
+                if rnd.random() < 0.3:
+                    do_badopen()            # a request on something that is not a dump, while this listing is in flight
+                if gens[gi][3]:
+                    drain(gi)
+    elif scenario == 'prepared':
+        # several requests made back to back BEFORE anything is read (all listings prepared first), then each read to its end
+        gis = [g for g in (do_open() for _ in range(rnd.randrange(2, 4))) if g is not None]
+        if rnd.random() < 0.5:
+            gis.reverse()
+        for gi in gis:
+            if failed():
+                break
+            drain(gi)
     elif scenario == 'interleave':
         # two or three listings alive together, read alternately to their ends
         gis = [g for g in (do_open() for _ in range(rnd.randrange(2, 4))) if g is not None]
@@ -184,7 +252,9 @@ def run_session(rnd, w, dumps, kinds, gen_cfg, nacts=14, max_gens=4):
         for _ in range(nacts):
             live = [i for i, g in enumerate(gens) if g[3]]
             r = rnd.random()
-            if (r < 0.25 or not live) and len(gens) < max_gens:
+            if r < 0.05:
+                do_badopen()
+            elif (r < 0.25 or not live) and len(gens) < max_gens:
                 last = do_open()
             elif r < 0.33 and len(gens) < max_gens:
                 do_cfg()
@@ -298,10 +368,17 @@ MC = {
 }
 
 
+EXTRA_NEG = {'C14': ((2, 10, '"tr", "fkev"', 'CfgNone', 'learn', 'clearAtOpen'), 'tables cleared when a listing is requested, filled at its first next()')}
+
+
 def model_check(ctx):
     """Sessions_MC for the calling property: positive configuration(s) and its negative control"""
     from .tlc import run_tlc
     pos, more, (neg, what) = MC[ctx.prop]
+    if ctx.prop in EXTRA_NEG:
+        n2, w2 = EXTRA_NEG[ctx.prop]
+        ctx.expect_violation(run_tlc('Sessions_MC', MC_CFG % n2, ctx.workdir, name='sessions_neg_' + n2[5], timeout=900,
+                                     allow_error=True), w2)
     for j, c in enumerate(pos + ([] if ctx.quick else more)):
         ctx.expect_ok(run_tlc('Sessions_MC', MC_CFG % (c + ('ok',)), ctx.workdir, name='sessions_%d' % j, timeout=7200))
     ctx.expect_violation(run_tlc('Sessions_MC', MC_CFG % neg, ctx.workdir, name='sessions_neg_' + neg[5], timeout=900,
